@@ -75,6 +75,9 @@ var zooStmts = []string{
 	"return",
 }
 
+var zooLitPieces = []string{"a", "\t", "\t\t", " ", "   ", "世", "\\t", "\\n", "\\\"", "\\x41", "\\u4e16", "%d", "//", "/*", "*/", "`", "'", "{", ";"}
+var zooRuneLits = []string{"'\t'", "' '", "'a'", "'\\t'", "'世'", "'\\''", "'\"'", "'`'", "'\\x00'"}
+
 func genZoo(t *rapid.T) string {
 	var b strings.Builder
 	b.WriteString(zooImports[rapid.IntRange(0, len(zooImports)-1).Draw(t, "imp")])
@@ -93,6 +96,13 @@ func genZoo(t *rapid.T) string {
 	nf := rapid.IntRange(1, 3).Draw(t, "nfunc")
 	for f := 0; f < nf; f++ {
 		fmt.Fprintf(&b, "func zoo%d(a, b: i32, pt: image.Point) {\n", f)
+		// literals with drawn content: bytes that mean something to the layout engine (TAB,
+		// runs of blanks, comment openers, back quotes) are ordinary content inside them
+		for i, nl := 0, rapid.IntRange(0, 2).Draw(t, "nlit"); i < nl; i++ {
+			pieces := rapid.SliceOfN(rapid.SampledFrom(zooLitPieces), 0, 7).Draw(t, "litpieces")
+			fmt.Fprintf(&b, "\tlit%d_%d := \"%s\" // c\n", f, i, strings.Join(pieces, ""))
+			fmt.Fprintf(&b, "\tch%d_%d := %s\n", f, i, rapid.SampledFrom(zooRuneLits).Draw(t, "runelit"))
+		}
 		ns := rapid.IntRange(1, 6).Draw(t, "nstmt")
 		used := map[int]bool{}
 		for i := 0; i < ns; i++ {
@@ -140,11 +150,11 @@ func TestZooTemplates(t *testing.T) {
 
 func TestSyntaxZoo(t *testing.T) {
 	s := core.NewStats(prop, "SyntaxZoo")
-	s.Rule("rapid-assembled .wa files from a zoo of declaration and statement templates that cover surface syntax the program generator never emits (package-qualified composite literals inside parenthesised if/for/switch/range headers, import / const / global / var groups, iota, labels, fallthrough, type switches, raw strings, anonymous struct/interface/func types, variadics, 3-index slices, multi-line calls, number literal spellings); files are parsed and formatted only (no type check); oracle as in Generated without the compile step; non-trivial = the formatter changed the text or the file has ≥ 4 statements; distinct by input hash")
+	s.Rule("rapid-assembled .wa files from a zoo of declaration and statement templates that cover surface syntax the program generator never emits (package-qualified composite literals inside parenthesised if/for/switch/range headers, import / const / global / var groups, iota, labels, fallthrough, type switches, raw strings, anonymous struct/interface/func types, variadics, 3-index slices, multi-line calls, number literal spellings); files are parsed and formatted only (no type check); plus string and rune literals with drawn content (literal TAB bytes, runs of blanks, comment openers, back quotes, escapes) followed by a trailing comment; oracle as in Generated without the compile step; non-trivial = the formatter changed the text or the file has ≥ 4 statements; distinct by input hash")
 	var judged, out int64
 	s.Check(t, func(t *rapid.T, c *core.Case) {
 		src := genZoo(t)
-		if rapid.Bool().Draw(t, "scramble") && !strings.Contains(src, "raw := `") {
+		if rapid.Bool().Draw(t, "scramble") && !strings.Contains(src, "raw := `") && !strings.Contains(src, "\tlit") {
 			src, _ = scramble(t, src, false)
 		}
 		k := kase{Name: "zoo.wa", Src: src}
